@@ -660,6 +660,16 @@ VARIANTS = [
             [("vsg/vhdlFile/extract/get_tokens_starting_with_token_and_ending_with_one_of_possible_tokens.py", "                    lNewTemp = vhdl_utils.remove_trailing_whitespace_and_comments(lTemp)", "                    lNewTemp = vhdl_utils.remove_trailing_whitespace(lTemp)")], rule="C02.trim"),
     Variant("C02", "whitespace predicate starts skipping comments", "fire",
             [("vsg/vhdlFile/utils.py", "def token_is_whitespace(oToken):\n    if (\n        isinstance(oToken, parser.whitespace)\n", "def token_is_whitespace(oToken):\n    if (\n        isinstance(oToken, parser.whitespace)\n        or isinstance(oToken, parser.comment)\n")]),
+    Variant("C02", "after_003 replaces its region although it holds a comment", "fire",
+            [(_R + "after/rule_003.py", "                        if not oNewToi.token_type_exists(parser.comment):\n                            self.add_violation(oViolation)", "                        self.add_violation(oViolation)")], rule="C02.drop"),
+    Variant("C02", "remove_new_line analysis loses its comment test", "fire",
+            [(_R + "check.py", "        if comment_between(lTokens, iToken, utils.find_next_non_whitespace_token(iToken + 1, lTokens)):\n            return\n", ""),
+             (_R + "check.py", "        if comment_between(lTokens, utils.find_previous_non_whitespace_token(iToken - 1, lTokens), iToken):\n            return\n", ""),
+             (_R + "check.py", "def comment_between(lTokens, iStart, iEnd):\n    for oToken in lTokens[iStart:iEnd]:\n        if isinstance(oToken, parser.comment):\n            return True\n    return False\n", ""),
+             (_R + "utils.py", "    if token_is_comment(lTokens[iToken + 1]):\n        return True\n    if token_is_whitespace(lTokens[iToken + 1]) and token_is_comment(lTokens[iToken + 2]):\n        return True\n    return False\n\n\ndef left_most", "    return False\n\n\ndef left_most")], rule="C02.join"),
+    Variant("C02", "twin: comment guard moved from region selection into analysis", "silent",
+            [(_R + "remove_tokens_bounded_by_tokens_and_remove_trailing_whitespace.py", "        return [oToi for oToi in lToi if not oToi.token_type_exists(parser.comment)]", "        return lToi"),
+             (_R + "remove_tokens_bounded_by_tokens_and_remove_trailing_whitespace.py", "        for oToi in lToi:\n            self.add_violation", "        for oToi in lToi:\n            if oToi.token_type_exists(parser.comment):\n                continue\n            self.add_violation")]),
     Variant("C02", "twin: guard written with the utils predicate", "silent",
             [(_R + "remove_carriage_return_after_token.py", "                    if isinstance(oToken, parser.comment):\n                        break\n", "                    if rules_utils.token_is_comment(oToken):\n                        break\n")]),
     Variant("C02", "twin: fix drops only whitespace from the rebuilt list", "silent",
